@@ -86,6 +86,7 @@ def query(
     str_bound: int = 24,
     sanity: bool = False,
     extra_asserts: list[str] = (),
+    also_declare: list[SymVal] = (),
 ) -> str:
     """pre_L = pre_R  and  (one of `content_differs` holds); `sanity` drops the disequality."""
     tl = left.content if which == "content" else left.ident
@@ -93,7 +94,9 @@ def query(
     hex_len = 2 * int(left.digest_size)
     lines = ["(set-logic QF_SLIA)", "(set-option :produce-models true)"]
     seen = set()
-    for v in free_vars(tl) + free_vars(tr) + [x for pair in extra_equal for x in pair]:
+    # also_declare: variables the disequality mentions although the pre-image does not (a property
+    # the code under analysis left out of the digest): they must be part of the model
+    for v in free_vars(tl) + free_vars(tr) + [x for pair in extra_equal for x in pair] + list(also_declare):
         if v.name in seen:
             continue
         seen.add(v.name)
